@@ -5,63 +5,95 @@ From Coq Require Import List Arith Bool.
 Import ListNotations.
 From TV Require Import Exec.Model Exec.Monitors Exec.InvDefer.
 
+(* (1) safety, every reachable state: for every started activation the deferred announcements are
+   strictly decreasing (reverse order of registration, hence each entry at most once), are
+   DeferShell entries of its task, and EXIT_CODE printed by its deferred commands is the exit
+   status of its own failing command - or unset (0) when that command ended under a cancelled
+   context, which happens only if a task of the program can fail through a guard, or the expanded
+   call tree is large enough for the call counter to trip, or another activation has a failing
+   command *)
+Theorem C14_defer_safety :
+  forall p c sched, mon_C14 p c false (trace (run p c sched)) = true.
+Proof. exact defer_safety. Qed.
+Print Assumptions C14_defer_safety.
+
+(* (2) completeness, completed runs: additionally every announced deferred command executed; an
+   activation that printed "finished" ran exactly all its DeferShell entries in reverse order; one
+   that stopped after announcing shell command i ran every DeferShell entry with a smaller index *)
+Theorem C14_defer_complete :
+  forall p c sched r, run_result p c (run p c sched) = Some r ->
+                      mon_C14 p c true (trace (run p c sched)) = true.
+Proof. exact defer_complete. Qed.
+Print Assumptions C14_defer_complete.
+
+(* the harness sees the observable part of the trace; mon_C14 does not look at anything else *)
+Theorem C14_defer_safety_observable :
+  forall p c sched, mon_C14 p c false (filter observable (trace (run p c sched))) = true.
+Proof. exact defer_safety_observable. Qed.
+Print Assumptions C14_defer_safety_observable.
+
+Theorem C14_defer_complete_observable :
+  forall p c sched r, run_result p c (run p c sched) = Some r ->
+                      mon_C14 p c true (filter observable (trace (run p c sched))) = true.
+Proof. exact defer_complete_observable. Qed.
+Print Assumptions C14_defer_complete_observable.
+
+Theorem C14_observable :
+  forall p c complete tr, mon_C14 p c complete (filter observable tr) = mon_C14 p c complete tr.
+Proof. exact mon_C14_observable. Qed.
+Print Assumptions C14_observable.
+
+(* ---- the pieces, each of independent interest ---- *)
+
 (* mon_C14 is its order/completeness part and its EXIT_CODE part *)
 Theorem C14_monitor_split :
   forall p c complete tr, mon_C14 p c complete tr = mon_C14_noexit p c complete tr && mon_C14_exit p c tr.
 Proof. exact mon_C14_split. Qed.
 Print Assumptions C14_monitor_split.
 
-(* (1) every reachable state: for every started activation the deferred announcements are strictly
-   decreasing (hence each entry at most once) and are DeferShell entries of its task *)
-Theorem C14_defer_safety :
+(* order / exactly once / completeness do not depend on any excuse *)
+Theorem C14_defer_safety_noexit :
   forall p c sched, mon_C14_noexit p c false (trace (run p c sched)) = true.
 Proof. exact defer_safety_noexit. Qed.
-Print Assumptions C14_defer_safety.
+Print Assumptions C14_defer_safety_noexit.
 
-(* (2) completed runs: every announced deferred command executed; an activation that printed
-   "finished" ran exactly all its DeferShell entries in reverse order; one that stopped after
-   announcing shell command i ran every DeferShell entry with a smaller index *)
-Theorem C14_defer_complete :
+Theorem C14_defer_complete_noexit :
   forall p c sched r, run_result p c (run p c sched) = Some r ->
                       mon_C14_noexit p c true (trace (run p c sched)) = true.
 Proof. exact defer_complete_noexit. Qed.
-Print Assumptions C14_defer_complete.
+Print Assumptions C14_defer_complete_noexit.
 
 (* EXIT_CODE printed by a deferred command is the exit status of the activation's own failing
-   command, or unset (0) *)
+   command, or unset (0), whatever the program *)
 Theorem C14_exit_code_own_or_unset :
   forall p c sched,
     forallb (fun a => exit_codes_weak p c a (trace (run p c sched))) (started_acts (trace (run p c sched))) = true.
 Proof. exact exit_codes_weak_all. Qed.
 Print Assumptions C14_exit_code_own_or_unset.
 
-(* ... so mon_C14's EXIT_CODE conjunct holds for every activation for which its excuse applies *)
-Theorem C14_exit_code_ok_if_foreign :
-  forall p c sched a, In a (started_acts (trace (run p c sched))) ->
-                      foreign_failure p c a (trace (run p c sched)) = true ->
-                      exit_codes_ok p c a (trace (run p c sched)) = true.
-Proof. exact exit_codes_ok_if_foreign. Qed.
-Print Assumptions C14_exit_code_ok_if_foreign.
-
-(* full mon_C14, EXIT_CODE exact, when no probe ends under a cancelled context *)
-Theorem C14_full_uncancelled_safety :
+(* EXIT_CODE is exactly that exit status when no probe ends under a cancelled context *)
+Theorem C14_exit_code_exact_uncancelled :
   forall p c sched, all_states probes_uncancelled p c (init_state p) sched ->
                     mon_C14 p c false (trace (run p c sched)) = true.
 Proof. exact defer_safety_uncancelled. Qed.
-Print Assumptions C14_full_uncancelled_safety.
+Print Assumptions C14_exit_code_exact_uncancelled.
 
-Theorem C14_full_uncancelled_complete :
-  forall p c sched r, all_states probes_uncancelled p c (init_state p) sched ->
-                      run_result p c (run p c sched) = Some r ->
-                      mon_C14 p c true (trace (run p c sched)) = true.
-Proof. exact defer_complete_uncancelled. Qed.
-Print Assumptions C14_full_uncancelled_complete.
+(* a command ends under a cancelled context only after an error: if the call counter (error 204,
+   a ghost EvEnd of the model trace) did not trip, mon_C14 holds without the static call-count
+   excuse being needed ... *)
+Theorem C14_full_no_callcount_error :
+  forall p c sched, no204 (trace (run p c sched)) = true ->
+                    mon_C14 p c false (trace (run p c sched)) = true.
+Proof. exact defer_safety_full. Qed.
+Print Assumptions C14_full_no_callcount_error.
 
-(* the harness sees the observable part of the trace; mon_C14 does not look at anything else *)
-Theorem C14_observable :
-  forall p c complete tr, mon_C14 p c complete (filter observable tr) = mon_C14 p c complete tr.
-Proof. exact mon_C14_observable. Qed.
-Print Assumptions C14_observable.
+(* ... and a program whose expanded call tree has fewer task references than MaximumTaskCall
+   never trips the call counter *)
+Theorem C14_callcount_never_trips :
+  forall p c sched, callcount_possible p c = false ->
+                    all_states (callcount_safe c) p c (init_state p) sched.
+Proof. exact callcount_safe_all. Qed.
+Print Assumptions C14_callcount_never_trips.
 
 (* non-vacuity: three defer entries (one a task call) around a failing command; the two shell
    entries registered before the failure run, in reverse order, with EXIT_CODE 7; the third is
@@ -82,5 +114,30 @@ Example C14_defer_example :
   run_result exd_prog exd_cfg s = Some (RErr (ETaskRun (Some 7))) /\
   dann_of [0] (trace s) = [2; 0] /\ dprobes_of [0] (trace s) = [2; 0] /\ dcodes_of [0] (trace s) = [7; 7] /\
   started_acts (trace s) = [[0]; [0; 1]] /\
+  no_guard_errors exd_prog exd_cfg = true /\ callcount_possible exd_prog exd_cfg = false /\
   mon_C14_noexit exd_prog exd_cfg true (trace s) = true /\ mon_C14 exd_prog exd_cfg true (trace s) = true.
+Proof. vm_compute. repeat split; reflexivity. Qed.
+
+(* non-vacuity of the excuse: a sibling dep fails while the probe of the failing command is parked;
+   the errgroup cancels the context, the command ends with "context canceled", EXIT_CODE is unset,
+   and the monitor accepts it because another activation has a failing command *)
+Definition exc_prog : prog :=
+  [ {| t_deps := [ {| c_task := 1; c_var := VConst 0 |}; {| c_task := 2; c_var := VConst 0 |} ]; t_cmds := [];
+       t_run := Always; t_ignore := false; t_internal := false; t_g := dummy_guards |};
+    {| t_deps := []; t_cmds := [Shell 3 false]; t_run := Always; t_ignore := false; t_internal := false;
+       t_g := dummy_guards |};
+    {| t_deps := []; t_cmds := [DeferShell 0; Shell 7 false]; t_run := Always; t_ignore := false;
+       t_internal := false; t_g := dummy_guards |} ].
+Definition exc_cfg : cfg :=
+  {| cf_N := None; cf_parallel := false; cf_force := false; cf_forceall := false; cf_yes := false;
+     cf_roots := [ {| c_task := 0; c_var := VConst 0 |} ]; cf_maxcall := 1000 |}.
+Definition exc_sched : list choice :=
+  ChRoot 0 :: repeat (ChStep 0) 4 ++ repeat (ChStep 2) 11 ++ repeat (ChStep 1) 20 ++ repeat (ChStep 2) 12 ++
+  repeat (ChStep 0) 10.
+Example C14_defer_cancel_example :
+  let s := run exc_prog exc_cfg exc_sched in
+  dcodes_of [0; 1] (trace s) = [0] /\ own_failure exc_prog exc_cfg [0; 1] (trace s) = Some 7 /\
+  no_guard_errors exc_prog exc_cfg = true /\ callcount_possible exc_prog exc_cfg = false /\
+  foreign_failure exc_prog exc_cfg [0; 1] (trace s) = true /\
+  mon_C14 exc_prog exc_cfg true (trace s) = true.
 Proof. vm_compute. repeat split; reflexivity. Qed.
